@@ -30,7 +30,8 @@ def VParam.specRequired (p : VParam) : Bool := p.requiredArg && p.dflt.isNone
 def specStep (p : VParam) (a : PV) (fi : Step × Nat) : Except VExc PV :=
   match fi.1 a with
   | .ok w => .ok w
-  | .error .rejected => .error (.parameter p.name (p.whyAt fi.2))
+  -- whatever name the rejecting step's own exception carries: the exception raised names the Parameter whose chain this is
+  | .error (.rejected _) => .error (.parameter p.name (p.whyAt fi.2))
   | .error (.crash e) => .error (.foreign e)
 
 def specValidate (p : VParam) (v : PV) : Except VExc PV :=
